@@ -271,7 +271,7 @@ func c09r2(w *World, rr *RuleRun) {
 	// lastGotResponse is set only on the matched-response path of processPacket
 	pp := w.P.Func("(*Server).processPacket")
 	for _, st := range w.FieldWrites(w.P.LibFuncs, lastResp) {
-		rr.At(w, st, "lastGotResponse set only in processPacket's matched-response update", within(st.Parent(), pp), "in "+shortFuncName(st.Parent()))
+		rr.At(w, st, "lastGotResponse set only in processPacket's matched-response update", w.withinUp(st.Parent(), pp), "in "+shortFuncName(st.Parent()))
 	}
 }
 
